@@ -5,13 +5,14 @@
  * @bounds failing allocation index: symbolic over all naturals (also no failure); prior context: fresh, or already owning a (too small) workspace from an earlier use; compression parameters: windowLog 10, hash/chain log 6, minMatch 4, strategy fast (quick) / greedy with chain table (thorough), block size 1 KiB; buffered or not
  * @assume counting ZSTD_customMem with live-pointer set; table clears (> 96 bytes) are range-checked and havocked (split model), small struct resets are exact
  * @outside LDM and row-hash tables, large logs (C14 sizing harness), MT contexts
- * @link lib/common/zstd_common.c lib/common/error_private.c
+ * @link lib/common/zstd_common.c lib/common/error_private.c lib/compress/zstd_ldm.c
  * @mem split
  * @defs -DV_SPLIT=96
  * @cbmc --unwind 14 --unwindset __builtin_memset.0:98,__builtin_memcpy.0:98,__builtin_memmove.0:98,__builtin_memmove.1:98
  * @timeout 1800
  * @memgb 14
  * @instance fast -DH_STRATEGY=ZSTD_fast
+ * @instance resize_fail tier=quick timeout=600 -DH_STRATEGY=ZSTD_fast -DH_FAILONLY=1
  * @instance greedy tier=thorough timeout=1200 -DH_STRATEGY=ZSTD_greedy
  */
 #include "v.h"
@@ -20,17 +21,24 @@
 XXH_errorcode XXH64_reset(XXH64_state_t* s, XXH64_hash_t seed) { (void)s; (void)seed; return XXH_OK; }
 
 static ZSTD_CCtx g_cctx;
+#ifndef H_FAILONLY
+#define H_FAILONLY 0
+#endif
 
 void harness(void)
 {
     ZSTD_CCtx* const zc = &g_cctx;
     ZSTD_customMem const cm = VC_MEM;
     static ZSTD_CCtx_params params;
+#if H_FAILONLY
+    int const hadWorkspace = 1;
+#else
     int const hadWorkspace = nondet_bool();
+#endif
     int const buffered = nondet_bool();
     size_t r;
     zc->customMem = cm;
-    ZSTD_CCtxParams_init(&params, 1);
+    params.compressionLevel = 1; params.fParams.contentSizeFlag = 1;   /* = ZSTD_CCtxParams_init(&params, 1) on the zero-initialised static (its memset would be havocked by the split model) */
     params.cParams.windowLog = 10;
     params.cParams.hashLog = 6;
     params.cParams.chainLog = 6;
@@ -44,6 +52,20 @@ void harness(void)
         VCHECK(!ZSTD_isError(ZSTD_cwksp_create(&zc->workspace, 512, cm)));
     }
     vc_count = 0; vc_fail_at = nondet_uint();
+#if H_FAILONLY
+    /* quick instance: only the failing-resize history (context already owns a too-small workspace, the allocation of
+     * the bigger one fails); the context must then be releasable without returning any block twice. The successful
+     * continuation (table reservation and clearing) is the thorough instances' subject. */
+    vc_fail_at = 1;      /* concrete, so that symbolic execution itself prunes the successful continuation */
+    r = ZSTD_resetCCtx_internal(zc, &params, 100, 0, ZSTDcrp_makeClean, buffered ? ZSTDb_buffered : ZSTDb_not_buffered);
+    VCHECKM(ZSTD_isError(r) && vc_failed == 1, "the resize reports the allocation failure");
+    VCHECKM(zc->workspace.workspace == NULL && vc_nlive == 0, "after a failed resize the context does not keep a pointer to memory it already returned");
+    VCHECKM(ZSTD_sizeof_CCtx(zc) == sizeof(*zc), "a context whose workspace was released reports no workspace bytes");
+    ZSTD_freeCCtxContent(zc);
+    VC_NOLEAK();
+    VWITNESS(buffered);
+    VWITNESS(!buffered);
+#else
     r = ZSTD_resetCCtx_internal(zc, &params, 100, 0, ZSTDcrp_makeClean, buffered ? ZSTDb_buffered : ZSTDb_not_buffered);
     if (ZSTD_isError(r)) {
         VCHECKM(vc_failed == 1, "reset fails only because an allocation failed");
@@ -62,4 +84,5 @@ void harness(void)
     VC_NOLEAK();
     VWITNESS(vc_failed == 0 && hadWorkspace);
     VWITNESS(buffered);
+#endif
 }
